@@ -6,6 +6,13 @@
 //   wait         b.wait(token of the last arrive)
 //   aw           b.arrive_and_wait()
 //   drop         b.arrive_and_drop()
+//   waitT <m>    b.wait(token, busy_wait_timeout)        (follow-up C09t)
+//   awT <m>      b.arrive_and_wait(busy_wait_timeout)
+//     m = 1: time-out 1 ns (fires at the first or second check), m = 2: 1e9 s (never fires: the
+//     whole wait is the busy-wait phase), m >= 3: 3 ms, and the (m-2)-th spin_k call of the wait
+//     sleeps 4 ms of real time while holding the baton, so the next time check fires (a planned,
+//     replayable time-out after m-2 unsuccessful polls).  On a loaded machine the 3 ms can also
+//     elapse earlier; the model accepts a time-out at every iteration, so no verdict depends on it.
 // The completion function is a preemption point (`bar.compl`), so the window between the last
 // arrival and the phase publication is exposed to the scheduler.
 #define VERIF_WITH_PIKA_TASKS
@@ -14,8 +21,10 @@
 
 #include <pika/synchronization/barrier.hpp>
 
+#include <chrono>
 #include <cstdint>
 #include <memory>
+#include <thread>
 
 using namespace verif;
 
@@ -24,6 +33,27 @@ struct completion_fn
     void const** obj;
     void operator()() noexcept { pt("bar.compl", *obj); }
 };
+
+// agent of a logical thread that can let real time pass inside a chosen spin_k call
+struct spin_agent : verif_agent
+{
+    int countdown = 0;
+    using verif_agent::verif_agent;
+    void spin_k(std::size_t k, char const* d) override
+    {
+        if (countdown > 0 && --countdown == 0) std::this_thread::sleep_for(std::chrono::milliseconds(4));
+        verif_agent::spin_k(k, d);
+    }
+};
+
+static std::chrono::duration<double> timeout_of(long long m, spin_agent& ag)
+{
+    ag.countdown = 0;
+    if (m <= 1) return std::chrono::duration<double>(1e-9);
+    if (m == 2) return std::chrono::duration<double>(1e9);
+    ag.countdown = int(m - 2);
+    return std::chrono::duration<double>(3e-3);
+}
 
 static void run_one(case_t const& c)
 {
@@ -43,6 +73,8 @@ static void run_one(case_t const& c)
     {
         bodies.push_back([=, &c] {
             std::uint8_t token = 0;
+            spin_agent sag(i, ctl);
+            pika::execution::this_thread::detail::reset_agent sra(sag);
             for (auto const& op : c.threads[i])
             {
                 long long a0 = op.args.size() > 0 ? op.args[0] : 1;
@@ -62,6 +94,20 @@ static void run_one(case_t const& c)
                 {
                     pt("inv.aw", o);
                     bar->arrive_and_wait();
+                    nt("ret", o, 0);
+                }
+                else if (op.name == "waitT")
+                {
+                    pt("inv.waitT", o, token, a0);
+                    bar->wait(std::uint8_t(token), timeout_of(a0, sag));
+                    sag.countdown = 0;
+                    nt("ret", o, token);
+                }
+                else if (op.name == "awT")
+                {
+                    pt("inv.awT", o, 0, a0);
+                    bar->arrive_and_wait(timeout_of(a0, sag));
+                    sag.countdown = 0;
                     nt("ret", o, 0);
                 }
                 else if (op.name == "drop")
